@@ -52,13 +52,17 @@ Proof. destruct s; reflexivity. Qed.
 
 (* ------------------------------------------------------------------ the states tmp_worktree moves through *)
 
-(* between `worktree add` and the end of the finally block; the temp dir p exists in all of them *)
-Inductive aclean := AFull (d : bool) | ANoWt | AClean.
+(* between mkdtemp and the exit of `with TemporaryDirectory`; the temp dir p exists in all of them.
+   AFull d: branch, registration, checkout (d: it holds modified or untracked files); AStale: branch and registration,
+   the checkout is gone (torn `worktree remove`); ANoWt: the branch only; AClean: nothing but the temp dir *)
+Inductive aclean := AFull (d : bool) | AStale | ANoWt | AClean.
 
 Definition conc (s : repo) (p : path) (b : string) (c : commit) (a : aclean) : repo :=
   match a with
   | AFull d => mkRepo (head_branch s) (head_commit s) (main_status s) ((b, c) :: branches s) (names s)
                       (mkReg p (Some b) false :: regs s) ((p, d) :: dirs s) (p :: tmps s)
+  | AStale => mkRepo (head_branch s) (head_commit s) (main_status s) ((b, c) :: branches s) (names s)
+                      (mkReg p (Some b) false :: regs s) (dirs s) (p :: tmps s)
   | ANoWt => mkRepo (head_branch s) (head_commit s) (main_status s) ((b, c) :: branches s) (names s)
                     (regs s) (dirs s) (p :: tmps s)
   | AClean => mkRepo (head_branch s) (head_commit s) (main_status s) (branches s) (names s) (regs s) (dirs s) (p :: tmps s)
@@ -72,38 +76,62 @@ Definition leak_branch (s : repo) (b : string) (c : commit) : repo :=
   mkRepo (head_branch s) (head_commit s) (main_status s) ((b, c) :: branches s) (names s) (regs s) (dirs s) (tmps s).
 
 Definition final (s : repo) (p : path) (b : string) (c : commit) (a : aclean) : repo :=
-  match a with AFull _ => leak_reg s p b c | ANoWt => leak_branch s b c | AClean => s end.
+  match a with AFull _ | AStale => leak_reg s p b c | ANoWt => leak_branch s b c | AClean => s end.
 
-Definition a_remove (a : aclean) : option aclean := match a with AFull _ => Some ANoWt | _ => None end.
-Definition a_branchD (a : aclean) : option aclean := match a with ANoWt => Some AClean | _ => None end.
+(* the checkout inside the temp dir is deleted, the temp dir is not *)
+Definition strip (a : aclean) : aclean := match a with AFull _ => AStale | _ => a end.
 
-Definition a_apply (step : aclean -> option aclean) (a : aclean) := match step a with Some a' => a' | None => a end.
-Definition a_git_call (f : fault) (step : aclean -> option aclean) (a : aclean) : aclean * signal :=
+(* the state in which tmp_worktree ends, by what happened to the removal of the TemporaryDirectory *)
+Definition a_exit (s : repo) (p : path) (b : string) (c : commit) (rm : rmfault) (a : aclean) : repo :=
+  match rm with
+  | RmOk | RmRaiseAfter _ => final s p b c a
+  | RmRaiseBefore _ => conc s p b c a
+  | RmTorn _ => conc s p b c (strip a)
+  end.
+
+Definition exit_result (rm : rmfault) (r : result) : result :=
+  match rm with RmOk => r | RmRaiseBefore e | RmTorn e | RmRaiseAfter e => Raised e end.
+
+Definition a_remove (a : aclean) : aclean * bool := match a with AFull _ | AStale => (ANoWt, true) | _ => (a, false) end.
+Definition a_remove_torn (a : aclean) : aclean := strip a.
+Definition a_branchD (a : aclean) : aclean * bool := match a with ANoWt => (AClean, true) | _ => (a, false) end.
+(* `worktree add` from the state right after mkdtemp, when the reference resolves and the branch name is free *)
+Definition a_add (a : aclean) : aclean * bool := match a with AClean => (AFull false, true) | _ => (a, false) end.
+Definition a_add_torn (a : aclean) : aclean := match a with AClean => ANoWt | _ => a end.
+(* ... and when it does not resolve, or the branch exists: refused without effect *)
+Definition a_noadd (a : aclean) : aclean * bool := (a, false).
+
+Definition a_git_call (f : fault) (step : aclean -> aclean * bool) (torn : aclean -> aclean) (a : aclean) : aclean * signal :=
   match f with
-  | NoFault => match step a with Some a' => (a', Rc0) | None => (a, RcFail) end
+  | NoFault => let (a', ok) := step a in (a', if ok then Rc0 else RcFail)
   | FailBefore => (a, RcFail)
-  | FailAfter => (a_apply step a, RcFail)
+  | FailAfter => (fst (step a), RcFail)
   | RaiseBefore e => (a, Exn e)
-  | RaiseAfter e => (a_apply step a, Exn e)
+  | RaiseAfter e => (fst (step a), Exn e)
+  | Torn None => (torn a, RcFail)
+  | Torn (Some e) => (torn a, Exn e)
   end.
 
 Definition a_cleanup (F : faults) (a : aclean) : aclean * option exn :=
-  let (a1, g1) := a_git_call (f_remove F) a_remove a in
+  let (a1, g1) := a_git_call (f_remove F) a_remove a_remove_torn a in
   match g1 with
   | Exn e => (a1, Some e)
   | _ =>
-    let (a3, g3) := a_git_call (f_branchD F) a_branchD a1 in
+    let (a3, g3) := a_git_call (f_branchD F) a_branchD (fun x => x) a1 in
     match g3 with
     | Exn e => (a3, Some e)
     | _ => (a3, None)
     end
   end.
 
-Lemma git_call_sim : forall (cn : aclean -> repo) step astep f a,
-  (forall a, step (cn a) = option_map cn (astep a)) ->
-  git_call f step (cn a) = (cn (fst (a_git_call f astep a)), snd (a_git_call f astep a)).
+(* pointwise simulation of one git call *)
+Lemma git_call_sim : forall (cn : aclean -> repo) step torn astep atorn f a,
+  step (cn a) = (cn (fst (astep a)), snd (astep a)) ->
+  torn (cn a) = cn (atorn a) ->
+  git_call f step torn (cn a) = (cn (fst (a_git_call f astep atorn a)), snd (a_git_call f astep atorn a)).
 Proof.
-  intros cn step astep f a H. destruct f; simpl; unfold apply_step, a_apply; rewrite ?H; destruct (astep a); reflexivity.
+  intros cn step torn astep atorn f a H T.
+  destruct f as [| | | e | e | [e|]]; simpl; rewrite ?H, ?T; destruct (astep a); reflexivity.
 Qed.
 
 Fixpoint dirty_after (evs : list event) (d : bool) : bool :=
@@ -168,20 +196,34 @@ Section Flow.
       apply String.eqb_eq in Hon. subst rb. congruence.
   Qed.
 
-  (* ---- git steps on the three cleanup states *)
+  (* ---- git steps on the four states *)
 
-  Lemma remove_sim : forall a, wt_remove true p (cn a) = option_map cn (a_remove a).
+  Lemma remove_opt : forall a, wt_remove true p (cn a) = if snd (a_remove a) then Some (cn (fst (a_remove a))) else None.
   Proof.
-    intros [d| |]; unfold wt_remove, find_reg, cn, conc; simpl.
+    intros [d| | |]; unfold wt_remove, find_reg, cn, conc; simpl.
     - rewrite ?Nat.eqb_refl. simpl. rewrite ?andb_false_r.
       unfold set_dirs, set_regs; simpl. rewrite ?Nat.eqb_refl. simpl. rewrite drop_reg_fresh, drop_dir_fresh. reflexivity.
+    - rewrite ?Nat.eqb_refl. simpl. rewrite fresh_dir.
+      unfold set_regs; simpl. rewrite ?Nat.eqb_refl. simpl. rewrite drop_reg_fresh. reflexivity.
     - rewrite find_reg_fresh. reflexivity.
     - rewrite find_reg_fresh. reflexivity.
   Qed.
 
-  Lemma branchD_sim : forall a, branch_D b (cn a) = option_map cn (a_branchD a).
+  Lemma remove_sim : forall a, lift (wt_remove true p) (cn a) = (cn (fst (a_remove a)), snd (a_remove a)).
+  Proof. intros a. unfold lift. rewrite remove_opt. destruct a; reflexivity. Qed.
+
+  Lemma remove_torn_sim : forall a, wt_remove_torn true p (cn a) = cn (a_remove_torn a).
   Proof.
-    intros [d| |]; unfold branch_D, has_branch, checked_out, cn, conc; simpl.
+    intros a. unfold wt_remove_torn. rewrite remove_opt.
+    destruct a as [d| | |]; simpl; try reflexivity; unfold set_dirs; simpl.
+    - rewrite Nat.eqb_refl. simpl. rewrite drop_dir_fresh. reflexivity.
+    - rewrite drop_dir_fresh. reflexivity.
+  Qed.
+
+  Lemma branchD_sim : forall a, lift (branch_D b) (cn a) = (cn (fst (a_branchD a)), snd (a_branchD a)).
+  Proof.
+    intros [d| | |]; unfold lift, branch_D, has_branch, checked_out, cn, conc; simpl.
+    - rewrite ?String.eqb_refl. simpl. rewrite orb_true_r. reflexivity.
     - rewrite ?String.eqb_refl. simpl. rewrite orb_true_r. reflexivity.
     - rewrite ?String.eqb_refl. simpl. pose proof not_checked_out as H. unfold checked_out in H. rewrite H. simpl.
       unfold set_branches; simpl. rewrite ?String.eqb_refl. simpl. rewrite drop_branch_fresh. reflexivity.
@@ -190,21 +232,53 @@ Section Flow.
 
   Lemma rmtree_final : forall a, rmtree p (cn a) = final s p b c a.
   Proof.
-    intros [d| |]; unfold rmtree, set_tmps, set_dirs, cn, conc, final, leak_reg, leak_branch; simpl;
+    intros [d| | |]; unfold rmtree, set_tmps, set_dirs, cn, conc, final, leak_reg, leak_branch; simpl;
       rewrite ?Nat.eqb_refl; simpl; rewrite ?drop_dir_fresh, ?drop_tmp_fresh; try reflexivity.
     apply repo_eta.
+  Qed.
+
+  Lemma strip_sim : forall a, set_dirs (cn a) (drop_dir p (dirs (cn a))) = cn (strip a).
+  Proof.
+    intros [d| | |]; unfold set_dirs, cn, conc; simpl; rewrite ?Nat.eqb_refl; simpl; rewrite drop_dir_fresh; reflexivity.
+  Qed.
+
+  Lemma exit_sim : forall F a r, exit_td F p (cn a) r = (a_exit s p b c (f_rmtree F) a, exit_result (f_rmtree F) r).
+  Proof.
+    intros F a r. unfold exit_td, a_exit, exit_result.
+    destruct (f_rmtree F); rewrite ?rmtree_final, ?strip_sim; reflexivity.
+  Qed.
+
+  Lemma cn_not_s : forall a, cn a <> s.
+  Proof.
+    intros a H. assert (E : existsb (Nat.eqb p) (tmps (cn a)) = true).
+    { destruct a; unfold cn, conc; simpl; rewrite Nat.eqb_refl; reflexivity. }
+    rewrite H in E. rewrite fresh_tmp in E. discriminate.
   Qed.
 
   Lemma final_clean_iff : forall a, final s p b c a = s <-> a = AClean.
   Proof.
     intros a. split.
-    - destruct a as [d| |]; simpl; intros H; try reflexivity; exfalso.
+    - destruct a as [d| | |]; simpl; intros H; try reflexivity; exfalso.
+      + assert (E : has_branch b (leak_reg s p b c) = true) by (unfold has_branch, leak_reg; simpl; rewrite String.eqb_refl; reflexivity).
+        rewrite H in E. congruence.
       + assert (E : has_branch b (leak_reg s p b c) = true) by (unfold has_branch, leak_reg; simpl; rewrite String.eqb_refl; reflexivity).
         rewrite H in E. congruence.
       + assert (E : has_branch b (leak_branch s b c) = true) by (unfold has_branch, leak_branch; simpl; rewrite String.eqb_refl; reflexivity).
         rewrite H in E. congruence.
     - intros ->. reflexivity.
   Qed.
+
+  (* the exit state is the initial state exactly when everything was cleaned up and the directory removal worked *)
+  Lemma a_exit_clean_iff : forall rm a,
+    a_exit s p b c rm a = s <-> (a = AClean /\ match rm with RmOk | RmRaiseAfter _ => true | _ => false end = true).
+  Proof.
+    intros rm a. destruct rm; simpl.
+    - rewrite final_clean_iff. tauto.
+    - split; [intro H; exfalso; exact (cn_not_s _ H)|intros [_ H]; discriminate].
+    - split; [intro H; exfalso; exact (cn_not_s _ H)|intros [_ H]; discriminate].
+    - rewrite final_clean_iff. tauto.
+  Qed.
+
   Lemma touch_full : forall d, touch p (cn (AFull d)) = cn (AFull true).
   Proof.
     intros d. unfold touch, set_dirs, cn, conc; simpl. rewrite Nat.eqb_refl.
@@ -219,40 +293,48 @@ Section Flow.
     - rewrite touch_full. apply IH.
   Qed.
 
-  Lemma rmtree_mkdtemp : rmtree p (mkdtemp p s) = s.
-  Proof.
-    unfold rmtree, mkdtemp, set_tmps, set_dirs; simpl. rewrite ?Nat.eqb_refl. simpl.
-    rewrite drop_dir_fresh, drop_tmp_fresh. apply repo_eta.
-  Qed.
+  Lemma mkdtemp_clean : mkdtemp p s = cn AClean.
+  Proof. reflexivity. Qed.
 
-  Lemma add_refused : forall r, resolve s r = None -> wt_add b p r (mkdtemp p s) = None.
-  Proof. intros r H. unfold wt_add, resolve in *. simpl. unfold resolve in H. rewrite H. reflexivity. Qed.
-
-  Lemma add_done : forall r, resolve s r = Some c -> wt_add b p r (mkdtemp p s) = Some (cn (AFull false)).
+  (* `worktree add` in the state right after mkdtemp *)
+  Lemma add_sim : forall r, resolve s r = Some c ->
+    wt_add b p r (cn AClean) = (cn (fst (a_add AClean)), snd (a_add AClean)).
   Proof.
-    intros r H. unfold wt_add. replace (resolve (mkdtemp p s) r) with (resolve s r) by reflexivity. rewrite H.
-    replace (has_branch b (mkdtemp p s)) with (has_branch b s) by reflexivity.
-    replace (registered p (mkdtemp p s)) with (registered p s) by reflexivity.
-    replace (dir_exists p (mkdtemp p s)) with (dir_exists p s) by reflexivity.
+    intros r H. unfold wt_add. replace (resolve (cn AClean) r) with (resolve s r) by reflexivity. rewrite H.
+    replace (has_branch b (cn AClean)) with (has_branch b s) by reflexivity.
+    replace (registered p (cn AClean)) with (registered p s) by reflexivity.
+    replace (dir_exists p (cn AClean)) with (dir_exists p s) by reflexivity.
     rewrite Hnob, fresh_reg. unfold dir_exists. rewrite fresh_dir. simpl.
     unfold add_tmp. simpl. rewrite ?Nat.eqb_refl. simpl. reflexivity.
+  Qed.
+
+  Lemma add_torn_sim : forall r, resolve s r = Some c -> wt_add_torn b p r (cn AClean) = cn (a_add_torn AClean).
+  Proof.
+    intros r H. unfold wt_add_torn. replace (resolve (cn AClean) r) with (resolve s r) by reflexivity. rewrite H.
+    replace (has_branch b (cn AClean)) with (has_branch b s) by reflexivity. rewrite Hnob. reflexivity.
+  Qed.
+
+  Lemma noadd_sim : forall r, resolve s r = None ->
+    wt_add b p r (cn AClean) = (cn AClean, false) /\ wt_add_torn b p r (cn AClean) = cn AClean.
+  Proof.
+    intros r H. unfold wt_add, wt_add_torn. replace (resolve (cn AClean) r) with (resolve s r) by reflexivity. rewrite H. split; reflexivity.
   Qed.
 
   Lemma cleanup_sim : forall F a,
     cleanup true F b p (cn a) = (cn (fst (a_cleanup F a)), snd (a_cleanup F a)).
   Proof.
     intros F a. unfold cleanup, a_cleanup.
-    rewrite (git_call_sim cn (wt_remove true p) a_remove (f_remove F) a remove_sim).
-    destruct (a_git_call (f_remove F) a_remove a) as [a1 g1]; simpl.
+    rewrite (git_call_sim cn (lift (wt_remove true p)) (wt_remove_torn true p) a_remove a_remove_torn (f_remove F) a (remove_sim a) (remove_torn_sim a)).
+    destruct (a_git_call (f_remove F) a_remove a_remove_torn a) as [a1 g1]; simpl.
     destruct g1; try reflexivity;
-      rewrite (git_call_sim cn (branch_D b) a_branchD (f_branchD F) a1 branchD_sim);
-      destruct (a_git_call (f_branchD F) a_branchD a1) as [a3 g3]; simpl; destruct g3; reflexivity.
+      rewrite (git_call_sim cn (lift (branch_D b)) (fun x => x) a_branchD (fun x => x) (f_branchD F) a1 (branchD_sim a1) eq_refl);
+      destruct (a_git_call (f_branchD F) a_branchD (fun x => x) a1) as [a3 g3]; simpl; destruct g3; reflexivity.
   Qed.
 
   (* ---- prune needs the extra hypothesis on s *)
   Hypothesis Hnp : no_prunable s = true.
 
-  Lemma prune_sim : forall a, wt_prune (cn a) = cn a.
+  Lemma prune_sim : forall a, a <> AStale -> wt_prune (cn a) = cn a.
   Proof.
     assert (K : forall (dd : list (path * bool)), (forall q, Nat.eqb q p = false -> is_some (nlookup q dd) = is_some (nlookup q (dirs s))) ->
                 forall l, (forall r, In r l -> In r (regs s)) ->
@@ -261,7 +343,7 @@ Section Flow.
       unfold no_prunable in Hnp. rewrite forallb_forall in Hnp. specialize (Hnp r Hl).
       unfold prunable, dir_exists in Hnp. rewrite Hdd; [exact Hnp|].
       exact (existsb_false_all _ _ fresh_reg r Hl). }
-    intros [d| |]; unfold wt_prune, prunable, dir_exists, set_regs, cn, conc; simpl.
+    intros [d| | |] Hne; try (exfalso; apply Hne; reflexivity); unfold wt_prune, prunable, dir_exists, set_regs, cn, conc; simpl.
     - rewrite ?Nat.eqb_refl. simpl. f_equal. f_equal.
       apply (K ((p, d) :: dirs s)); [|auto]. intros q Hq. simpl. rewrite Nat.eqb_sym in Hq. rewrite Hq. reflexivity.
     - f_equal. apply (K (dirs s)); auto.
@@ -270,32 +352,50 @@ Section Flow.
 
 End Flow.
 
-(* the finite part, decided by computation: the cleanup reaches the clean state exactly under cleanup_benign *)
-Lemma a_cleanup_benign_iff : forall F d, fst (a_cleanup F (AFull d)) = AClean <-> cleanup_benign F = true.
+(* ------------------------------------------------------------------ the finite part, decided by case analysis *)
+
+(* the cleanup reaches the clean state exactly when it is able to undo what the add call left behind *)
+Definition start_of (l : leftover) (d : bool) : aclean :=
+  match l with LNothing => AClean | LBranch => ANoWt | LFull => AFull d end.
+
+Lemma a_cleanup_ok_iff : forall F l d, fst (a_cleanup F (start_of l d)) = AClean <-> cleanup_ok l F = true.
 Proof.
-  intros [fa fm fd fr fb] d. unfold cleanup_benign, a_cleanup; simpl.
-  destruct fr, fb; simpl; split; intro H; try reflexivity; try discriminate.
+  intros [fa fm fl fd fr fb ft] l d. unfold cleanup_ok, cleanup_benign, remove_quiet, branchD_effective, a_cleanup; simpl.
+  destruct l; simpl;
+    destruct fr as [| | | e | e | [e|]]; simpl; destruct fb as [| | | e' | e' | [e'|]]; simpl;
+    split; intro H; try reflexivity; try discriminate.
 Qed.
 
-(* ------------------------------------------------------------------ load_git: closed form after a successful add *)
+Lemma a_cleanup_benign_iff : forall F d, fst (a_cleanup F (AFull d)) = AClean <-> cleanup_benign F = true.
+Proof. intros F d. exact (a_cleanup_ok_iff F LFull d). Qed.
 
-Lemma after_add :
-  forall s p ref c tree evs F,
-  wf s = true -> fresh p s = true ->
-  has_branch (tmp_branch ref) s = false ->
-  exists d r,
-    finish true F (tmp_branch ref) p (git_body ref tree evs p) (conc s p (tmp_branch ref) c (AFull false))
-    = (final s p (tmp_branch ref) c (fst (a_cleanup F (AFull d))), r).
+(* what the add call leaves, as an abstract state, when the reference resolves and the branch name is free *)
+Lemma add_call_leftover : forall f,
+  fst (a_git_call f a_add a_add_torn AClean) = start_of (add_leftover f) false /\
+  (snd (a_git_call f a_add a_add_torn AClean) = Rc0 <-> f = NoFault).
 Proof.
-  intros s p ref c tree evs F Hwf Hfr Hnob. unfold finish, git_body.
-  set (b := tmp_branch ref).
-  assert (E : slookup b (branches (conc s p b c (AFull false))) = Some c) by (simpl; rewrite String.eqb_refl; reflexivity).
+  intros [| | | e | e | [e|]]; simpl; split; try reflexivity; split; intro H; try reflexivity; discriminate.
+Qed.
+
+Lemma noadd_call : forall f,
+  fst (a_git_call f a_noadd (fun x => x) AClean) = AClean /\ snd (a_git_call f a_noadd (fun x => x) AClean) <> Rc0.
+Proof. intros [| | | e | e | [e|]]; simpl; split; try reflexivity; discriminate. Qed.
+
+(* ------------------------------------------------------------------ load_git: closed form *)
+
+(* the body of `with tmp_worktree` keeps the abstract shape: it can only dirty the checkout *)
+Lemma git_body_full :
+  forall s p ref c tree evs d,
+  fresh p s = true ->
+  exists d' r, git_body ref tree evs p (conc s p (tmp_branch ref) c (AFull d)) = (conc s p (tmp_branch ref) c (AFull d'), r).
+Proof.
+  intros s p ref c tree evs d Hfr. unfold git_body. set (b := tmp_branch ref).
+  assert (E : slookup b (branches (conc s p b c (AFull d))) = Some c) by (simpl; rewrite String.eqb_refl; reflexivity).
   rewrite E. unfold load_body.
   destruct (content_at tree c).
-  - exists false. eexists. rewrite (cleanup_sim s p b c Hwf Hfr Hnob). rewrite (rmtree_final s p b c Hfr). reflexivity.
-  - exists false. eexists. rewrite (cleanup_sim s p b c Hwf Hfr Hnob). rewrite (rmtree_final s p b c Hfr). reflexivity.
-  - rewrite (run_events_full s p b c Hfr). exists (dirty_after evs false). eexists.
-    rewrite (cleanup_sim s p b c Hwf Hfr Hnob). rewrite (rmtree_final s p b c Hfr). reflexivity.
+  - exists d. eexists. reflexivity.
+  - exists d. eexists. reflexivity.
+  - rewrite (run_events_full s p b c Hfr). exists (dirty_after evs d). eexists. reflexivity.
 Qed.
 
 Lemma add_possible_inv : forall s ref, add_possible s ref = true ->
@@ -305,13 +405,67 @@ Proof.
   destruct (resolve s ref) as [c|]; [|discriminate]. exists c. split; [reflexivity|]. apply negb_true_iff in H2. exact H2.
 Qed.
 
-Lemma add_impossible : forall s p ref, fresh p s = true -> add_possible s ref = false ->
-  wt_add (tmp_branch ref) p ref (mkdtemp p s) = None.
+(* `worktree add` after mkdtemp when it cannot even create its branch: no effect, whatever the fault *)
+Lemma add_impossible_call : forall s p ref f, add_possible s ref = false ->
+  fst (git_call f (wt_add (tmp_branch ref) p ref) (wt_add_torn (tmp_branch ref) p ref) (mkdtemp p s)) = mkdtemp p s /\
+  snd (git_call f (wt_add (tmp_branch ref) p ref) (wt_add_torn (tmp_branch ref) p ref) (mkdtemp p s)) <> Rc0.
 Proof.
-  intros s p ref Hfr H. unfold wt_add. replace (resolve (mkdtemp p s) ref) with (resolve s ref) by reflexivity.
-  unfold add_possible in H. destruct (resolve s ref) as [c|]; [|reflexivity]. simpl in H.
-  apply negb_false_iff in H. replace (has_branch (tmp_branch ref) (mkdtemp p s)) with (has_branch (tmp_branch ref) s) by reflexivity.
-  rewrite H. reflexivity.
+  intros s p ref f H.
+  assert (A : wt_add (tmp_branch ref) p ref (mkdtemp p s) = (mkdtemp p s, false)).
+  { unfold wt_add. replace (resolve (mkdtemp p s) ref) with (resolve s ref) by reflexivity.
+    unfold add_possible in H. destruct (resolve s ref) as [c|]; [|reflexivity]. simpl in H.
+    apply negb_false_iff in H. replace (has_branch (tmp_branch ref) (mkdtemp p s)) with (has_branch (tmp_branch ref) s) by reflexivity.
+    rewrite H. reflexivity. }
+  assert (T : wt_add_torn (tmp_branch ref) p ref (mkdtemp p s) = mkdtemp p s).
+  { unfold wt_add_torn. replace (resolve (mkdtemp p s) ref) with (resolve s ref) by reflexivity.
+    unfold add_possible in H. destruct (resolve s ref) as [c|]; [|reflexivity]. simpl in H.
+    apply negb_false_iff in H. replace (has_branch (tmp_branch ref) (mkdtemp p s)) with (has_branch (tmp_branch ref) s) by reflexivity.
+    rewrite H. reflexivity. }
+  destruct f as [| | | e | e | [e|]]; simpl; rewrite ?A, ?T; simpl; split; try reflexivity; discriminate.
+Qed.
+
+(* the state in which the unrepaired tmp_worktree ends once mkdtemp has run, as an abstract state *)
+Definition a_after_add (F : faults) (d : bool) : aclean :=
+  match f_add F with
+  | NoFault => fst (a_cleanup F (AFull d))
+  | f => start_of (add_leftover f) false
+  end.
+
+(* Every path through tmp_worktree + load_git (code as it is): the final state is one of the enumerated shapes.
+   Either nothing was ever created, or the run ends in a_exit of an abstract state that the fault placement determines. *)
+Theorem load_git_final_shape :
+  forall s p ref tree evs isrepo F,
+  wf s = true -> fresh p s = true ->
+  fst (load_git false true isrepo F p ref tree evs s) = s \/
+  exists c a, fst (load_git false true isrepo F p ref tree evs s) = a_exit s p (tmp_branch ref) c (f_rmtree F) a.
+Proof.
+  intros s p ref tree evs isrepo F Hwf Hfr. unfold load_git, tmp_worktree.
+  destruct (git_call (f_assert F) (fun x => (x, isrepo)) (fun x => x) s) as [s0 g0] eqn:E0.
+  assert (S0 : s0 = s).
+  { destruct (f_assert F) as [| | | e | e | [e|]]; simpl in E0; inversion E0; reflexivity. }
+  subst s0. destruct g0; try (left; reflexivity).
+  destruct (f_mkdtemp F); [left; reflexivity|]. right. cbv zeta.
+  destruct (add_possible s ref) eqn:Eap.
+  - destruct (add_possible_inv _ _ Eap) as [c [Hres Hnob]]. exists c.
+    rewrite (mkdtemp_clean s p (tmp_branch ref) c).
+    rewrite (git_call_sim (conc s p (tmp_branch ref) c) _ _ a_add a_add_torn (f_add F) AClean
+               (add_sim s p (tmp_branch ref) c Hfr Hnob ref Hres) (add_torn_sim s p (tmp_branch ref) c Hnob ref Hres)).
+    destruct (a_git_call (f_add F) a_add a_add_torn AClean) as [a2 g2] eqn:E2. cbn [fst snd].
+    destruct g2.
+    + assert (A2 : a2 = AFull false).
+      { destruct (f_add F) as [| | | e | e | [e|]]; simpl in E2; inversion E2; reflexivity. }
+      subst a2. unfold finish.
+      destruct (git_body_full s p ref c tree evs false Hfr) as [d' [r Hb]]. rewrite Hb.
+      rewrite (cleanup_sim s p (tmp_branch ref) c Hwf Hfr Hnob).
+      destruct (a_cleanup F (AFull d')) as [a4 ce]. simpl.
+      rewrite (exit_sim s p (tmp_branch ref) c Hfr). exists a4. reflexivity.
+    + rewrite (exit_sim s p (tmp_branch ref) c Hfr). exists a2. reflexivity.
+    + rewrite (exit_sim s p (tmp_branch ref) c Hfr). exists a2. reflexivity.
+  - exists 0, AClean.
+    destruct (add_impossible_call s p ref (f_add F) Eap) as [A1 A2].
+    destruct (git_call (f_add F) (wt_add (tmp_branch ref) p ref) (wt_add_torn (tmp_branch ref) p ref) (mkdtemp p s)) as [s2 g2].
+    simpl in A1, A2. subst s2. rewrite (mkdtemp_clean s p (tmp_branch ref) 0).
+    destruct g2; [exfalso; apply A2; reflexivity| |]; rewrite (exit_sim s p (tmp_branch ref) 0 Hfr); reflexivity.
 Qed.
 
 (* The main theorem: for every repository, reference, loader behaviour and fault placement, the state after load_git
@@ -319,41 +473,193 @@ Qed.
 Theorem load_git_restored_iff :
   forall s p ref tree evs isrepo F,
   wf s = true -> fresh p s = true ->
-  (fst (load_git true isrepo F p ref tree evs s) = s <-> benign isrepo s ref F = true).
+  (fst (load_git false true isrepo F p ref tree evs s) = s <-> benign isrepo s ref F = true).
 Proof.
   intros s p ref tree evs isrepo F Hwf Hfr.
-  unfold benign, gap_add_after, excluded_cleanup_fault, reaches_cleanup, reaches_add.
+  unfold benign, gap_add_after, excluded_cleanup_fault, excluded_rmtree_fault, reaches_cleanup, reaches_add, rm_effective.
   unfold load_git, tmp_worktree.
-  destruct isrepo; destruct (f_assert F) eqn:Ea; cbn [git_call apply_step is_nofault andb negb fst]; try (split; reflexivity).
-  destruct (f_mkdtemp F) eqn:Em; cbn [andb negb fst]; [split; reflexivity|].
+  destruct isrepo; destruct (f_assert F) as [| | | e | e | [e|]] eqn:Ea; cbn [git_call is_nofault andb negb fst snd]; try (split; reflexivity).
+  destruct (f_mkdtemp F) eqn:Em; cbn [andb negb fst]; [split; reflexivity|]. cbv zeta.
   destruct (add_possible s ref) eqn:Eap; cbn [andb negb].
   - destruct (add_possible_inv _ _ Eap) as [c [Hres Hnob]].
-    pose proof (add_done s p (tmp_branch ref) c Hfr Hnob ref Hres) as Hadd.
-    destruct (f_add F) eqn:Ed; cbn [git_call is_nofault andb negb]; unfold apply_step; rewrite ?Hadd; cbn [fst andb negb].
-    + (* add succeeds: body, cleanup, rmtree *)
-      destruct (after_add s p ref c tree evs F Hwf Hfr Hnob) as [d [r H]].
-      rewrite H. cbn [fst].
-      rewrite (final_clean_iff s p (tmp_branch ref) c Hnob). rewrite a_cleanup_benign_iff.
-      destruct (cleanup_benign F); cbn [negb]; split; congruence.
-    + rewrite (rmtree_mkdtemp s p Hfr). split; reflexivity.
-    + rewrite (rmtree_final s p (tmp_branch ref) c Hfr).
-      split; [|discriminate]. intro H. exfalso.
-      apply (final_clean_iff s p (tmp_branch ref) c Hnob (AFull false)) in H. discriminate.
-    + rewrite (rmtree_mkdtemp s p Hfr). split; reflexivity.
-    + rewrite (rmtree_final s p (tmp_branch ref) c Hfr).
-      split; [|discriminate]. intro H. exfalso.
-      apply (final_clean_iff s p (tmp_branch ref) c Hnob (AFull false)) in H. discriminate.
-  - pose proof (add_impossible s p ref Hfr Eap) as Hadd.
-    destruct (f_add F) eqn:Ed; cbn [git_call is_nofault andb negb]; unfold apply_step; rewrite ?Hadd; cbn [fst andb negb];
-      rewrite ?andb_false_r; cbn [negb andb];
-      rewrite (rmtree_mkdtemp s p Hfr); split; reflexivity.
+    rewrite (mkdtemp_clean s p (tmp_branch ref) c).
+    rewrite (git_call_sim (conc s p (tmp_branch ref) c) _ _ a_add a_add_torn (f_add F) AClean
+               (add_sim s p (tmp_branch ref) c Hfr Hnob ref Hres) (add_torn_sim s p (tmp_branch ref) c Hnob ref Hres)).
+    destruct (f_add F) as [| | | e | e | [e|]] eqn:Ed; cbn [a_git_call a_add a_add_torn fst snd is_nofault andb negb].
+    + (* add succeeds: body, cleanup, exit *)
+      unfold finish.
+      destruct (git_body_full s p ref c tree evs false Hfr) as [d' [r Hb]]. rewrite Hb.
+      rewrite (cleanup_sim s p (tmp_branch ref) c Hwf Hfr Hnob).
+      destruct (a_cleanup F (AFull d')) as [a4 ce] eqn:E4. cbn [fst snd].
+      rewrite (exit_sim s p (tmp_branch ref) c Hfr). cbn [fst].
+      rewrite (a_exit_clean_iff s p (tmp_branch ref) c Hfr Hnob).
+      pose proof (a_cleanup_benign_iff F d') as K. rewrite E4 in K. cbn [fst] in K. rewrite K.
+      destruct (cleanup_benign F); destruct (f_rmtree F); cbn [negb andb]; split; intro H; try reflexivity; try discriminate;
+        try (destruct H; discriminate); try (split; reflexivity).
+    + rewrite (exit_sim s p (tmp_branch ref) c Hfr). cbn [fst]. rewrite (a_exit_clean_iff s p (tmp_branch ref) c Hfr Hnob).
+      destruct (f_rmtree F); cbn [negb andb]; split; intro H; try reflexivity; try discriminate; try (destruct H; discriminate); try (split; reflexivity).
+    + rewrite (exit_sim s p (tmp_branch ref) c Hfr). cbn [fst]. rewrite (a_exit_clean_iff s p (tmp_branch ref) c Hfr Hnob).
+      split; intro H; [destruct H; discriminate|discriminate].
+    + rewrite (exit_sim s p (tmp_branch ref) c Hfr). cbn [fst]. rewrite (a_exit_clean_iff s p (tmp_branch ref) c Hfr Hnob).
+      destruct (f_rmtree F); cbn [negb andb]; split; intro H; try reflexivity; try discriminate; try (destruct H; discriminate); try (split; reflexivity).
+    + rewrite (exit_sim s p (tmp_branch ref) c Hfr). cbn [fst]. rewrite (a_exit_clean_iff s p (tmp_branch ref) c Hfr Hnob).
+      split; intro H; [destruct H; discriminate|discriminate].
+    + rewrite (exit_sim s p (tmp_branch ref) c Hfr). cbn [fst]. rewrite (a_exit_clean_iff s p (tmp_branch ref) c Hfr Hnob).
+      split; intro H; [destruct H; discriminate|discriminate].
+    + rewrite (exit_sim s p (tmp_branch ref) c Hfr). cbn [fst]. rewrite (a_exit_clean_iff s p (tmp_branch ref) c Hfr Hnob).
+      split; intro H; [destruct H; discriminate|discriminate].
+  - destruct (add_impossible_call s p ref (f_add F) Eap) as [A1 A2].
+    destruct (git_call (f_add F) (wt_add (tmp_branch ref) p ref) (wt_add_torn (tmp_branch ref) p ref) (mkdtemp p s)) as [s2 g2].
+    simpl in A1, A2. subst s2. rewrite (mkdtemp_clean s p (tmp_branch ref) 0).
+    assert (Hnob0 : True) by exact I.
+    rewrite ?andb_false_r. cbn [negb andb].
+    assert (X : forall r, fst (exit_td F p (conc s p (tmp_branch ref) 0 AClean) r) = s <->
+                          negb (negb match f_rmtree F with RmOk | RmRaiseAfter _ => true | _ => false end) = true).
+    { intros r. unfold exit_td. destruct (f_rmtree F); cbn [fst negb].
+      - rewrite <- (mkdtemp_clean s p (tmp_branch ref) 0). unfold rmtree, mkdtemp, set_tmps, set_dirs; simpl. rewrite Nat.eqb_refl. simpl.
+        rewrite (drop_dir_fresh s p Hfr), (drop_tmp_fresh s p Hfr). rewrite repo_eta. split; reflexivity.
+      - split; [intro H; exfalso|discriminate].
+        assert (E : existsb (Nat.eqb p) (tmps s) = true) by (rewrite <- H at 1; simpl; rewrite Nat.eqb_refl; reflexivity).
+        rewrite (fresh_tmp s p Hfr) in E. discriminate.
+      - split; [intro H; exfalso|discriminate].
+        assert (E : existsb (Nat.eqb p) (tmps s) = true) by (rewrite <- H at 1; simpl; rewrite Nat.eqb_refl; reflexivity).
+        rewrite (fresh_tmp s p Hfr) in E. discriminate.
+      - rewrite <- (mkdtemp_clean s p (tmp_branch ref) 0). unfold rmtree, mkdtemp, set_tmps, set_dirs; simpl. rewrite Nat.eqb_refl. simpl.
+        rewrite (drop_dir_fresh s p Hfr), (drop_tmp_fresh s p Hfr). rewrite repo_eta. split; reflexivity. }
+    destruct g2; [exfalso; apply A2; reflexivity| |]; apply X.
 Qed.
 
 Theorem load_git_state_restored :
   forall s p ref tree evs isrepo F,
   wf s = true -> fresh p s = true -> benign isrepo s ref F = true ->
-  fst (load_git true isrepo F p ref tree evs s) = s.
+  fst (load_git false true isrepo F p ref tree evs s) = s.
 Proof. intros. apply load_git_restored_iff; assumption. Qed.
+
+(* ------------------------------------------------------------------ the repaired variant (guard = true) *)
+
+(* leaving the TemporaryDirectory from the state right after mkdtemp *)
+Lemma exit_clean_iff : forall s p F r, fresh p s = true ->
+  (fst (exit_td F p (mkdtemp p s) r) = s <-> rm_effective F = true).
+Proof.
+  intros s p F r Hfr. unfold exit_td, rm_effective. destruct (f_rmtree F); cbn [fst].
+  - unfold rmtree, mkdtemp, set_tmps, set_dirs; simpl. rewrite Nat.eqb_refl. simpl.
+    rewrite (drop_dir_fresh s p Hfr), (drop_tmp_fresh s p Hfr). rewrite repo_eta. split; reflexivity.
+  - split; [intro H; exfalso|discriminate].
+    assert (E : existsb (Nat.eqb p) (tmps s) = true) by (rewrite <- H at 1; simpl; rewrite Nat.eqb_refl; reflexivity).
+    rewrite (fresh_tmp s p Hfr) in E. discriminate.
+  - split; [intro H; exfalso|discriminate].
+    assert (E : existsb (Nat.eqb p) (tmps s) = true) by (rewrite <- H at 1; simpl; rewrite Nat.eqb_refl; reflexivity).
+    rewrite (fresh_tmp s p Hfr) in E. discriminate.
+  - unfold rmtree, mkdtemp, set_tmps, set_dirs; simpl. rewrite Nat.eqb_refl. simpl.
+    rewrite (drop_dir_fresh s p Hfr), (drop_tmp_fresh s p Hfr). rewrite repo_eta. split; reflexivity.
+Qed.
+
+(* the cleanup in the state right after mkdtemp (nothing to undo) leaves it alone, whatever the faults *)
+Lemma a_cleanup_clean : forall F, fst (a_cleanup F AClean) = AClean.
+Proof. intros F. apply (a_cleanup_ok_iff F LNothing false). reflexivity. Qed.
+
+(* With the repair, the state after load_git is the state before it EXACTLY WHEN the cleanup calls that have something to
+   undo, and the removal of the temporary directory, do their job: no gap predicate is left. *)
+Theorem load_git_guarded_restored_iff :
+  forall s p ref tree evs isrepo F,
+  wf s = true -> fresh p s = true ->
+  (fst (load_git true true isrepo F p ref tree evs s) = s <-> benign_guarded isrepo s ref F = true).
+Proof.
+  intros s p ref tree evs isrepo F Hwf Hfr.
+  unfold benign_guarded, reaches_try, excluded_rmtree_fault, reaches_add.
+  unfold load_git, tmp_worktree.
+  destruct isrepo; destruct (f_assert F) as [| | | e | e | [e|]] eqn:Ea; cbn [git_call is_nofault andb negb orb fst snd]; try (split; reflexivity).
+  destruct (f_mkdtemp F) eqn:Em; cbn [andb negb orb fst]; [split; reflexivity|]. cbv zeta.
+  destruct (f_list F) as [| | | e | e | [e|]] eqn:El; cbn [ro_call is_nofault andb negb orb];
+    try (rewrite (exit_clean_iff s p F _ Hfr); destruct (rm_effective F); cbn [negb andb]; split; congruence).
+  replace (has_branch (tmp_branch ref) (mkdtemp p s)) with (has_branch (tmp_branch ref) s) by reflexivity.
+  destruct (has_branch (tmp_branch ref) s) eqn:Hnob; cbn [negb orb andb].
+  { rewrite (exit_clean_iff s p F _ Hfr). destruct (rm_effective F); cbn [negb andb]; split; congruence. }
+  unfold finish, add_then.
+  destruct (resolve s ref) as [c|] eqn:Hres; cbn [is_some negb orb].
+  - rewrite (mkdtemp_clean s p (tmp_branch ref) c).
+    rewrite (git_call_sim (conc s p (tmp_branch ref) c) _ _ a_add a_add_torn (f_add F) AClean
+               (add_sim s p (tmp_branch ref) c Hfr Hnob ref Hres) (add_torn_sim s p (tmp_branch ref) c Hnob ref Hres)).
+    destruct (add_call_leftover (f_add F)) as [L1 L2].
+    destruct (a_git_call (f_add F) a_add a_add_torn AClean) as [a2 g2]. cbn [fst snd] in *. subst a2.
+    assert (B : exists d' r,
+      match g2 with
+      | Rc0 => git_body ref tree evs p (conc s p (tmp_branch ref) c (start_of (add_leftover (f_add F)) false))
+      | RcFail => (conc s p (tmp_branch ref) c (start_of (add_leftover (f_add F)) false), Raised "RuntimeError")
+      | Exn e => (conc s p (tmp_branch ref) c (start_of (add_leftover (f_add F)) false), Raised e)
+      end = (conc s p (tmp_branch ref) c (start_of (add_leftover (f_add F)) d'), r)).
+    { destruct g2.
+      - assert (Ef : f_add F = NoFault) by (apply L2; reflexivity). rewrite Ef. cbn [add_leftover start_of].
+        apply git_body_full. exact Hfr.
+      - exists false. eexists. reflexivity.
+      - exists false. eexists. reflexivity. }
+    destruct B as [d' [r HB]]. rewrite HB.
+    rewrite (cleanup_sim s p (tmp_branch ref) c Hwf Hfr Hnob).
+    pose proof (a_cleanup_ok_iff F (add_leftover (f_add F)) d') as K.
+    destruct (a_cleanup F (start_of (add_leftover (f_add F)) d')) as [a4 ce]. cbn [fst snd] in *.
+    rewrite (exit_sim s p (tmp_branch ref) c Hfr). cbn [fst].
+    rewrite (a_exit_clean_iff s p (tmp_branch ref) c Hfr Hnob). rewrite K. unfold rm_effective.
+    destruct (cleanup_ok (add_leftover (f_add F)) F); destruct (f_rmtree F); cbn [negb andb]; split; intro H;
+      try reflexivity; try discriminate; try (destruct H; discriminate); try (split; reflexivity).
+  - rewrite (mkdtemp_clean s p (tmp_branch ref) 0).
+    destruct (noadd_sim s p (tmp_branch ref) 0 ref Hres) as [N1 N2].
+    assert (NS : wt_add (tmp_branch ref) p ref (conc s p (tmp_branch ref) 0 AClean)
+                 = (conc s p (tmp_branch ref) 0 (fst (a_noadd AClean)), snd (a_noadd AClean))) by exact N1.
+    rewrite (git_call_sim (conc s p (tmp_branch ref) 0) _ _ a_noadd (fun x => x) (f_add F) AClean NS N2).
+    destruct (noadd_call (f_add F)) as [L1 L2].
+    destruct (a_git_call (f_add F) a_noadd (fun x => x) AClean) as [a2 g2]. cbn [fst snd] in *. subst a2.
+    assert (B : exists r,
+      match g2 with
+      | Rc0 => git_body ref tree evs p (conc s p (tmp_branch ref) 0 AClean)
+      | RcFail => (conc s p (tmp_branch ref) 0 AClean, Raised "RuntimeError")
+      | Exn e => (conc s p (tmp_branch ref) 0 AClean, Raised e)
+      end = (conc s p (tmp_branch ref) 0 AClean, r)).
+    { destruct g2; [exfalso; apply L2; reflexivity| |]; eexists; reflexivity. }
+    destruct B as [r HB]. rewrite HB.
+    rewrite (cleanup_sim s p (tmp_branch ref) 0 Hwf Hfr Hnob).
+    pose proof (a_cleanup_clean F) as K.
+    destruct (a_cleanup F AClean) as [a4 ce]. cbn [fst snd] in *. subst a4.
+    rewrite (exit_sim s p (tmp_branch ref) 0 Hfr). cbn [fst].
+    rewrite (a_exit_clean_iff s p (tmp_branch ref) 0 Hfr Hnob). unfold rm_effective.
+    destruct (f_rmtree F); cbn [negb andb]; split; intro H;
+      try reflexivity; try discriminate; try (destruct H; discriminate); try (split; reflexivity).
+Qed.
+
+(* the headline of the repair: whatever happens to the assert, mkdtemp, list and ADD calls and whatever the loader does,
+   the repository is restored as soon as the three cleanup operations work *)
+Theorem load_git_guarded_restored :
+  forall s p ref tree evs isrepo F,
+  wf s = true -> fresh p s = true ->
+  f_remove F = NoFault -> f_branchD F = NoFault -> f_rmtree F = RmOk ->
+  fst (load_git true true isrepo F p ref tree evs s) = s.
+Proof.
+  intros s p ref tree evs isrepo F Hwf Hfr Hr Hb Ht. apply load_git_guarded_restored_iff; try assumption.
+  unfold benign_guarded, excluded_rmtree_fault, rm_effective, cleanup_ok, cleanup_benign, remove_quiet, branchD_effective.
+  rewrite Hr, Hb, Ht. rewrite andb_false_r. cbn [negb andb].
+  destruct (add_leftover (f_add F)); rewrite ?orb_true_r; reflexivity.
+Qed.
+
+(* the repair never makes things worse: whenever the code as it is restores, so does the repaired one
+   (same placement; the extra list call without fault) *)
+Theorem guarded_at_least_as_good :
+  forall s p ref tree evs isrepo F,
+  wf s = true -> fresh p s = true -> f_list F = NoFault ->
+  fst (load_git false true isrepo F p ref tree evs s) = s ->
+  fst (load_git true true isrepo F p ref tree evs s) = s.
+Proof.
+  intros s p ref tree evs isrepo F Hwf Hfr Hl H.
+  apply load_git_guarded_restored_iff; try assumption.
+  apply (load_git_restored_iff s p ref tree evs isrepo F Hwf Hfr) in H.
+  unfold benign, benign_guarded, gap_add_after, excluded_cleanup_fault, reaches_cleanup, reaches_try, add_possible in *.
+  rewrite Hl. cbn [is_nofault]. rewrite andb_true_r.
+  destruct (excluded_rmtree_fault isrepo F); [rewrite andb_false_r in H; discriminate|]. cbn [negb andb]. rewrite andb_true_r in H.
+  destruct (reaches_add isrepo F); cbn [andb negb orb] in *; [|reflexivity].
+  destruct (has_branch (tmp_branch ref) s); cbn [andb negb orb] in *; [reflexivity|].
+  destruct (resolve s ref); cbn [is_some andb negb orb] in *; [|reflexivity].
+  rewrite ?andb_true_r in H.
+  destruct (f_add F) as [| | | e | e | [e|]]; cbn [add_leftover cleanup_ok is_nofault negb andb] in *; try reflexivity; try discriminate.
+  destruct (cleanup_benign F); [reflexivity|discriminate].
+Qed.
 
 (* ------------------------------------------------------------------ facts that hold for EVERY fault placement *)
 
@@ -361,24 +667,49 @@ Section Preserve.
   Variable P : repo -> Prop.
   Variable p : path.
   Hypothesis P_mkdtemp : forall x, P x -> P (mkdtemp p x).
-  Hypothesis P_add : forall b r x y, wt_add b p r x = Some y -> P x -> P y.
+  Hypothesis P_with_branch : forall b c x, P x -> P (with_branch b c x).
+  Hypothesis P_add : forall b r x, snd (wt_add b p r x) = true -> P x -> P (fst (wt_add b p r x)).
   Hypothesis P_remove : forall f x y, wt_remove f p x = Some y -> P x -> P y.
+  Hypothesis P_dropdir : forall x, P x -> P (set_dirs x (drop_dir p (dirs x))).
   Hypothesis P_branchD : forall b x y, branch_D b x = Some y -> P x -> P y.
   Hypothesis P_touch : forall x, P x -> P (touch p x).
 
-  Lemma P_git_call : forall f step x, (forall a y, step a = Some y -> P a -> P y) -> P x -> P (fst (git_call f step x)).
+  Lemma P_lift : forall step x, (forall a y, step a = Some y -> P a -> P y) -> P x -> P (fst (lift step x)).
+  Proof. intros step x Hs Hx. unfold lift. destruct (step x) eqn:E; simpl; [eapply Hs; eassumption|exact Hx]. Qed.
+
+  Lemma P_git_call : forall f step torn x, (forall a, P a -> P (fst (step a))) -> (forall a, P a -> P (torn a)) -> P x ->
+    P (fst (git_call f step torn x)).
   Proof.
-    intros f step x Hs Hx. destruct f; simpl; unfold apply_step; try assumption;
-      destruct (step x) eqn:E; simpl; try assumption; eapply Hs; eassumption.
+    intros f step torn x Hs Ht Hx. destruct f as [| | | e | e | [e|]]; simpl; try assumption; try (apply Hs; assumption); try (apply Ht; assumption).
+    pose proof (Hs x Hx) as H. destruct (step x). exact H.
   Qed.
+
+  Lemma P_wt_add : forall b r x, P x -> P (fst (wt_add b p r x)).
+  Proof.
+    intros b r x Hx. pose proof (P_add b r x) as Ha. unfold wt_add in *. destruct (resolve x r) as [c|]; [|exact Hx].
+    destruct (has_branch b x); [exact Hx|]. destruct (registered p x || dir_exists p x).
+    - simpl. apply P_with_branch. exact Hx.
+    - apply Ha; [reflexivity|exact Hx].
+  Qed.
+
+  Lemma P_wt_add_torn : forall b r x, P x -> P (wt_add_torn b p r x).
+  Proof.
+    intros b r x Hx. unfold wt_add_torn. destruct (resolve x r) as [c|]; [|exact Hx].
+    destruct (has_branch b x); [exact Hx|]. apply P_with_branch. exact Hx.
+  Qed.
+
+  Lemma P_remove_torn : forall f x, P x -> P (wt_remove_torn f p x).
+  Proof. intros f x Hx. unfold wt_remove_torn. destruct (is_some (wt_remove f p x)); [apply P_dropdir|]; exact Hx. Qed.
 
   Lemma P_cleanup : forall force F b x, P x -> P (fst (cleanup force F b p x)).
   Proof.
     intros force F b x Hx. unfold cleanup.
-    pose proof (P_git_call (f_remove F) (wt_remove force p) x (P_remove force) Hx) as H1.
-    destruct (git_call (f_remove F) (wt_remove force p) x) as [s1 g1]. simpl in H1.
-    pose proof (P_git_call (f_branchD F) (branch_D b) s1 (P_branchD b) H1) as H3.
-    destruct (git_call (f_branchD F) (branch_D b) s1) as [s3 g3]. simpl in H3.
+    pose proof (P_git_call (f_remove F) (lift (wt_remove force p)) (wt_remove_torn force p) x
+                  (fun a Ha => P_lift _ a (P_remove force) Ha) (P_remove_torn force) Hx) as H1.
+    destruct (git_call (f_remove F) (lift (wt_remove force p)) (wt_remove_torn force p) x) as [s1 g1]. simpl in H1.
+    pose proof (P_git_call (f_branchD F) (lift (branch_D b)) (fun y => y) s1
+                  (fun a Ha => P_lift _ a (P_branchD b) Ha) (fun a Ha => Ha) H1) as H3.
+    destruct (git_call (f_branchD F) (lift (branch_D b)) (fun y => y) s1) as [s3 g3]. simpl in H3.
     destruct g1; simpl; try assumption; destruct g3; simpl; assumption.
   Qed.
 
@@ -396,26 +727,44 @@ Section Preserve.
     pose proof (P_run_events evs x Hx) as H. destruct (run_events evs p x). exact H.
   Qed.
 
-  (* every way out of tmp_worktree is either "nothing happened" or the removal of the temporary directory *)
-  Lemma tmp_worktree_exits : forall force isrepo F ref body s,
-    (forall x, P x -> P (fst (body x))) -> P s ->
-    fst (tmp_worktree force isrepo F p ref body s) = s \/
-    exists x, P x /\ fst (tmp_worktree force isrepo F p ref body s) = rmtree p x.
+  Lemma P_add_call : forall F b ref x, P x -> P (fst (git_call (f_add F) (wt_add b p ref) (wt_add_torn b p ref) x)).
+  Proof. intros F b ref x Hx. apply P_git_call; [intros a Ha; apply P_wt_add; exact Ha|intros a Ha; apply P_wt_add_torn; exact Ha|exact Hx]. Qed.
+
+  Lemma P_finish : forall force F b body x, (forall y, P y -> P (fst (body y))) -> P x ->
+    exists y r, P y /\ finish force F b p body x = exit_td F p y r.
   Proof.
-    intros force isrepo F ref body s Hb Hs. unfold tmp_worktree.
-    assert (E0 : fst (git_call (f_assert F) (fun x => if isrepo then Some x else None) s) = s).
-    { destruct (f_assert F); simpl; unfold apply_step; destruct isrepo; reflexivity. }
-    destruct (git_call (f_assert F) (fun x => if isrepo then Some x else None) s) as [s0 g0]. simpl in E0. subst s0.
+    intros force F b body x Hb Hx. unfold finish. pose proof (Hb x Hx) as H3. destruct (body x) as [s3 r]. simpl in H3.
+    pose proof (P_cleanup force F b s3 H3) as H4.
+    destruct (cleanup force F b p s3) as [s4 ce]. simpl in H4. exists s4. eexists. split; [exact H4|reflexivity].
+  Qed.
+
+  (* every way out of tmp_worktree (both variants) is either "nothing happened" or the exit of the TemporaryDirectory
+     from a state that every step before preserved P of *)
+  Lemma tmp_worktree_exits : forall guard force isrepo F ref body s,
+    (forall x, P x -> P (fst (body x))) -> P s ->
+    fst (tmp_worktree guard force isrepo F p ref body s) = s \/
+    exists x r, P x /\ tmp_worktree guard force isrepo F p ref body s = exit_td F p x r.
+  Proof.
+    intros guard force isrepo F ref body s Hb Hs. unfold tmp_worktree.
+    assert (E0 : fst (git_call (f_assert F) (fun x => (x, isrepo)) (fun x => x) s) = s).
+    { destruct (f_assert F) as [| | | e | e | [e|]]; reflexivity. }
+    destruct (git_call (f_assert F) (fun x => (x, isrepo)) (fun x => x) s) as [s0 g0]. simpl in E0. subst s0.
     destruct g0; try (left; reflexivity).
-    destruct (f_mkdtemp F); [left; reflexivity|]. right.
-    pose proof (P_git_call (f_add F) (wt_add (tmp_branch ref) p ref) (mkdtemp p s) (P_add (tmp_branch ref) ref) (P_mkdtemp s Hs)) as H2.
-    destruct (git_call (f_add F) (wt_add (tmp_branch ref) p ref) (mkdtemp p s)) as [s2 g2]. simpl in H2.
-    destruct g2.
-    - unfold finish. pose proof (Hb s2 H2) as H3. destruct (body s2) as [s3 r]. simpl in H3.
-      pose proof (P_cleanup force F (tmp_branch ref) s3 H3) as H4.
-      destruct (cleanup force F (tmp_branch ref) p s3) as [s4 ce]. simpl in H4. exists s4. split; [exact H4|reflexivity].
-    - exists s2. split; [exact H2|reflexivity].
-    - exists s2. split; [exact H2|reflexivity].
+    destruct (f_mkdtemp F); [left; reflexivity|]. right. cbv zeta.
+    pose proof (P_mkdtemp s Hs) as H1.
+    destruct guard.
+    - destruct (ro_call (f_list F) true); try (eexists; eexists; split; [exact H1|reflexivity]).
+      destruct (has_branch (tmp_branch ref) (mkdtemp p s)); [eexists; eexists; split; [exact H1|reflexivity]|].
+      apply P_finish; [|exact H1].
+      intros y Hy. unfold add_then. pose proof (P_add_call F (tmp_branch ref) ref y Hy) as H2.
+      destruct (git_call (f_add F) (wt_add (tmp_branch ref) p ref) (wt_add_torn (tmp_branch ref) p ref) y) as [s2 g2]. simpl in H2.
+      destruct g2; simpl; try exact H2. apply Hb. exact H2.
+    - pose proof (P_add_call F (tmp_branch ref) ref (mkdtemp p s) H1) as H2.
+      destruct (git_call (f_add F) (wt_add (tmp_branch ref) p ref) (wt_add_torn (tmp_branch ref) p ref) (mkdtemp p s)) as [s2 g2]. simpl in H2.
+      destruct g2.
+      + apply P_finish; assumption.
+      + eexists; eexists; split; [exact H2|reflexivity].
+      + eexists; eexists; split; [exact H2|reflexivity].
   Qed.
 End Preserve.
 
@@ -431,24 +780,24 @@ Proof.
   destruct (Nat.eqb k p) eqn:E; simpl; rewrite E; simpl; rewrite IH; reflexivity.
 Qed.
 
-(* the temporary directory and the checkout inside it: gone on every path, whatever fails *)
+(* the temporary directory and the checkout inside it *)
 Definition only_p_differs (s : repo) (p : path) (x : repo) : Prop :=
   drop_tmp p (tmps x) = tmps s /\ drop_dir p (dirs x) = dirs s.
 
-Theorem no_tmp_left :
-  forall force isrepo F p ref tree evs s,
-  fresh p s = true ->
-  tmps (fst (load_git force isrepo F p ref tree evs s)) = tmps s /\
-  dirs (fst (load_git force isrepo F p ref tree evs s)) = dirs s.
+Lemma only_p_differs_steps : forall s p,
+  (forall x, only_p_differs s p x -> only_p_differs s p (mkdtemp p x)) /\
+  (forall b c x, only_p_differs s p x -> only_p_differs s p (with_branch b c x)) /\
+  (forall b r x, snd (wt_add b p r x) = true -> only_p_differs s p x -> only_p_differs s p (fst (wt_add b p r x))) /\
+  (forall f x y, wt_remove f p x = Some y -> only_p_differs s p x -> only_p_differs s p y) /\
+  (forall x, only_p_differs s p x -> only_p_differs s p (set_dirs x (drop_dir p (dirs x)))) /\
+  (forall b x y, branch_D b x = Some y -> only_p_differs s p x -> only_p_differs s p y) /\
+  (forall x, only_p_differs s p x -> only_p_differs s p (touch p x)).
 Proof.
-  intros force isrepo F p ref tree evs s Hfr. unfold load_git.
-  assert (H0 : only_p_differs s p s) by (split; [apply drop_tmp_fresh|apply drop_dir_fresh]; exact Hfr).
-  destruct (tmp_worktree_exits (only_p_differs s p) p) with (force := force) (isrepo := isrepo) (F := F) (ref := ref)
-    (body := git_body ref tree evs p) (s := s) as [E|[x [[Hx1 Hx2] E]]].
+  intros s p. split; [|split; [|split; [|split; [|split; [|split]]]]].
   - intros x [H1 H2]. split; simpl; [rewrite Nat.eqb_refl; simpl; exact H1|exact H2].
-  - intros b r x y E [H1 H2]. unfold wt_add in E. destruct (resolve x r); [|discriminate].
-    destruct (has_branch b x || registered p x || dir_exists p x); [discriminate|]. inversion E; subst; clear E.
-    split; simpl.
+  - intros b c x [H1 H2]. split; simpl; assumption.
+  - intros b r x E [H1 H2]. unfold wt_add in *. destruct (resolve x r); [|discriminate]. destruct (has_branch b x); [discriminate|].
+    destruct (registered p x || dir_exists p x); [discriminate|]. split; simpl.
     + unfold add_tmp. destruct (existsb (Nat.eqb p) (tmps x)); [exact H1|]. simpl. rewrite Nat.eqb_refl. simpl. exact H1.
     + rewrite Nat.eqb_refl. simpl. exact H2.
   - intros f x y E [H1 H2]. unfold wt_remove in E. destruct (find_reg p x) as [r|]; [|discriminate].
@@ -456,12 +805,78 @@ Proof.
     + destruct (dirty && negb f); [discriminate|]. inversion E; subst; clear E. split; simpl; [exact H1|].
       unfold drop_dir in *. rewrite filter_idem. exact H2.
     + inversion E; subst; clear E. split; simpl; assumption.
+  - intros x [H1 H2]. split; simpl; [exact H1|]. unfold drop_dir in *. rewrite filter_idem. exact H2.
   - intros b x y E [H1 H2]. unfold branch_D in E. destruct (has_branch b x && negb (checked_out b x)); [|discriminate].
     inversion E; subst; clear E. split; simpl; assumption.
-  - intros x Hx. apply P_git_body; [|exact Hx]. intros y [H1 H2]. split; simpl; [exact H1|]. rewrite drop_dir_map_touch. exact H2.
+  - intros x [H1 H2]. split; simpl; [exact H1|]. rewrite drop_dir_map_touch. exact H2.
+Qed.
+
+(* the temporary directory and the checkout inside it are gone on every path of both variants, with or without --force,
+   whatever git call fails, is interrupted or torn -- as long as the removal of the TemporaryDirectory itself works *)
+Theorem no_tmp_left :
+  forall guard force isrepo F p ref tree evs s,
+  fresh p s = true -> rm_effective F = true ->
+  tmps (fst (load_git guard force isrepo F p ref tree evs s)) = tmps s /\
+  dirs (fst (load_git guard force isrepo F p ref tree evs s)) = dirs s.
+Proof.
+  intros guard force isrepo F p ref tree evs s Hfr Hrm. unfold load_git.
+  assert (H0 : only_p_differs s p s) by (split; [apply drop_tmp_fresh|apply drop_dir_fresh]; exact Hfr).
+  destruct (only_p_differs_steps s p) as [S1 [S2 [S3 [S4 [S5 [S6 S7]]]]]].
+  destruct (tmp_worktree_exits (only_p_differs s p) p S1 S2 S3 S4 S5 S6 guard force isrepo F ref (git_body ref tree evs p) s)
+    as [E|[x [r [[Hx1 Hx2] E]]]].
+  - intros x Hx. apply P_git_body; [exact S7|exact Hx].
   - exact H0.
   - rewrite E. split; reflexivity.
-  - rewrite E. simpl. split; assumption.
+  - rewrite E. unfold exit_td, rm_effective in *. destruct (f_rmtree F); try discriminate; simpl; split; assumption.
+Qed.
+
+(* ... and that hypothesis is needed: when the removal fails at once or in the middle, the directory stays *)
+Definition has_tmp (p : path) (x : repo) : Prop := In p (tmps x).
+
+Theorem tmp_left_when_removal_fails :
+  forall guard force isrepo F p ref tree evs s,
+  reaches_add isrepo F = true -> rm_effective F = false ->
+  In p (tmps (fst (load_git guard force isrepo F p ref tree evs s))).
+Proof.
+  intros guard force isrepo F p ref tree evs s Hra Hrm. unfold load_git.
+  assert (T : forall x, has_tmp p x -> has_tmp p (touch p x)) by (intros x H; exact H).
+  unfold reaches_add in Hra. apply andb_true_iff in Hra. destruct Hra as [Hra Hm]. apply andb_true_iff in Hra. destruct Hra as [Ha Hi].
+  destruct isrepo; [|discriminate]. apply negb_true_iff in Hm.
+  destruct (f_assert F) eqn:Ea; try discriminate.
+  (* redo the exits lemma by hand from the state after mkdtemp: the "nothing happened" exit is not taken *)
+  assert (X : exists x r, has_tmp p x /\ tmp_worktree guard force true F p ref (git_body ref tree evs p) s = exit_td F p x r).
+  { unfold tmp_worktree. rewrite Ea. cbn [git_call]. rewrite Hm. cbv zeta.
+    assert (H1 : has_tmp p (mkdtemp p s)) by (left; reflexivity).
+    assert (S2 : forall b c x, has_tmp p x -> has_tmp p (with_branch b c x)) by (intros; assumption).
+    assert (S3 : forall b r x, snd (wt_add b p r x) = true -> has_tmp p x -> has_tmp p (fst (wt_add b p r x))).
+    { intros b r x E H. unfold wt_add in *. destruct (resolve x r); [|discriminate]. destruct (has_branch b x); [discriminate|].
+      destruct (registered p x || dir_exists p x); [discriminate|]. unfold has_tmp; simpl. unfold add_tmp.
+      destruct (existsb (Nat.eqb p) (tmps x)); [exact H|right; exact H]. }
+    assert (S4 : forall f x y, wt_remove f p x = Some y -> has_tmp p x -> has_tmp p y).
+    { intros f x y E H. unfold wt_remove in E. destruct (find_reg p x) as [r|]; [|discriminate].
+      destruct (rlocked r); [discriminate|]. destruct (nlookup p (dirs x)) as [dirty|].
+      - destruct (dirty && negb f); [discriminate|]. inversion E; subst. exact H.
+      - inversion E; subst. exact H. }
+    assert (S5 : forall x, has_tmp p x -> has_tmp p (set_dirs x (drop_dir p (dirs x)))) by (intros; assumption).
+    assert (S6 : forall b x y, branch_D b x = Some y -> has_tmp p x -> has_tmp p y).
+    { intros b x y E H. unfold branch_D in E. destruct (has_branch b x && negb (checked_out b x)); [|discriminate]. inversion E; subst. exact H. }
+    assert (Hb : forall x, has_tmp p x -> has_tmp p (fst (git_body ref tree evs p x))).
+    { intros x Hx. apply P_git_body; [exact T|exact Hx]. }
+    destruct guard.
+    - destruct (ro_call (f_list F) true); try (eexists; eexists; split; [exact H1|reflexivity]).
+      destruct (has_branch (tmp_branch ref) (mkdtemp p s)); [eexists; eexists; split; [exact H1|reflexivity]|].
+      apply (P_finish (has_tmp p) p S4 S5 S6); [|exact H1].
+      intros y Hy. unfold add_then. pose proof (P_add_call (has_tmp p) p S2 S3 F (tmp_branch ref) ref y Hy) as H2.
+      destruct (git_call (f_add F) (wt_add (tmp_branch ref) p ref) (wt_add_torn (tmp_branch ref) p ref) y) as [s2 g2]. simpl in H2.
+      destruct g2; simpl; try exact H2. apply Hb. exact H2.
+    - pose proof (P_add_call (has_tmp p) p S2 S3 F (tmp_branch ref) ref (mkdtemp p s) H1) as H2.
+      destruct (git_call (f_add F) (wt_add (tmp_branch ref) p ref) (wt_add_torn (tmp_branch ref) p ref) (mkdtemp p s)) as [s2 g2]. simpl in H2.
+      destruct g2.
+      + apply (P_finish (has_tmp p) p S4 S5 S6); assumption.
+      + eexists; eexists; split; [exact H2|reflexivity].
+      + eexists; eexists; split; [exact H2|reflexivity]. }
+  destruct X as [x [r [Hx E]]]. rewrite E. unfold exit_td, rm_effective in *.
+  destruct (f_rmtree F); try discriminate; simpl; exact Hx.
 Qed.
 
 (* HEAD, the index / working tree / stash token of the main worktree, tags and other names: never written, whatever fails *)
@@ -469,33 +884,34 @@ Definition same_main (s x : repo) : Prop :=
   head_branch x = head_branch s /\ head_commit x = head_commit s /\ main_status x = main_status s /\ names x = names s.
 
 Theorem main_worktree_untouched :
-  forall force isrepo F p ref tree evs s, same_main s (fst (load_git force isrepo F p ref tree evs s)).
+  forall guard force isrepo F p ref tree evs s, same_main s (fst (load_git guard force isrepo F p ref tree evs s)).
 Proof.
-  intros force isrepo F p ref tree evs s. unfold load_git.
+  intros guard force isrepo F p ref tree evs s. unfold load_git.
   assert (T : forall x, same_main s x -> same_main s (touch p x)) by (intros x H; exact H).
-  destruct (tmp_worktree_exits (same_main s) p) with (force := force) (isrepo := isrepo) (F := F) (ref := ref)
-    (body := git_body ref tree evs p) (s := s) as [E|[x [Hx E]]].
+  destruct (tmp_worktree_exits (same_main s) p) with (guard := guard) (force := force) (isrepo := isrepo) (F := F) (ref := ref)
+    (body := git_body ref tree evs p) (s := s) as [E|[x [r [Hx E]]]].
   - intros x H. exact H.
-  - intros b r x y E H. unfold wt_add in E. destruct (resolve x r); [|discriminate].
-    destruct (has_branch b x || registered p x || dir_exists p x); [discriminate|]. inversion E; subst. exact H.
+  - intros b c x H. exact H.
+  - intros b r x E H. unfold wt_add in *. destruct (resolve x r); [|discriminate]. destruct (has_branch b x); [discriminate|].
+    destruct (registered p x || dir_exists p x); [discriminate|]. exact H.
   - intros f x y E H. unfold wt_remove in E. destruct (find_reg p x) as [r|]; [|discriminate].
     destruct (rlocked r); [discriminate|]. destruct (nlookup p (dirs x)) as [dirty|].
     + destruct (dirty && negb f); [discriminate|]. inversion E; subst. exact H.
     + inversion E; subst. exact H.
+  - intros x H. exact H.
   - intros b x y E H. unfold branch_D in E. destruct (has_branch b x && negb (checked_out b x)); [|discriminate].
     inversion E; subst. exact H.
   - intros x Hx. apply P_git_body; [exact T|exact Hx].
   - repeat split.
   - rewrite E. repeat split.
-  - rewrite E. exact Hx.
+  - rewrite E. unfold exit_td. destruct (f_rmtree F); exact Hx.
 Qed.
-
 (* ------------------------------------------------------------------ check *)
 
 Lemma load_new_restored : forall s a tree isrepo,
   wf s = true -> fresh (c_p2 a) s = true ->
   match c_base a with Some r => benign isrepo s r (c_F2 a) | None => true end = true ->
-  fst (load_new true isrepo a tree s) = s.
+  fst (load_new false true isrepo a tree s) = s.
 Proof.
   intros s a tree isrepo Hwf Hfr Hb. unfold load_new. destruct (c_base a) as [r|].
   - apply load_git_state_restored; assumption.
@@ -514,7 +930,7 @@ Theorem check_state_restored :
   forall s a tree breaking isrepo,
   wf s = true -> fresh (c_p1 a) s = true -> fresh (c_p2 a) s = true ->
   check_benign isrepo s a = true ->
-  fst (check true isrepo a tree breaking s) = s.
+  fst (check false true isrepo a tree breaking s) = s.
 Proof.
   intros s a tree breaking isrepo Hwf Hf1 Hf2 Hb. unfold check.
   destruct (against_of a) as [ag|r] eqn:Eag; [|reflexivity].
@@ -522,41 +938,72 @@ Proof.
   destruct (c_ext_fails a); [reflexivity|].
   unfold check_benign in Hb. rewrite (against_effective a ag Eag) in Hb. apply andb_true_iff in Hb. destruct Hb as [Hb1 Hb2].
   pose proof (load_git_state_restored s (c_p1 a) ag tree (c_evs1 a) isrepo (c_F1 a) Hwf Hf1 Hb1) as H1.
-  destruct (load_git true isrepo (c_F1 a) (c_p1 a) ag tree (c_evs1 a) s) as [s1 r1]. simpl in H1. subst s1.
+  destruct (load_git false true isrepo (c_F1 a) (c_p1 a) ag tree (c_evs1 a) s) as [s1 r1]. simpl in H1. subst s1.
   destruct r1 as [vo|e]; [|reflexivity].
   pose proof (load_new_restored s a tree isrepo Hwf Hf2 Hb2) as H2.
-  destruct (load_new true isrepo a tree s) as [s2 r2]. simpl in H2. subst s2.
+  destruct (load_new false true isrepo a tree s) as [s2 r2]. simpl in H2. subst s2.
+  destruct r2; reflexivity.
+Qed.
+
+(* the same for the repaired variant, under its weaker hypothesis *)
+Lemma load_new_guarded_restored : forall s a tree isrepo,
+  wf s = true -> fresh (c_p2 a) s = true ->
+  match c_base a with Some r => benign_guarded isrepo s r (c_F2 a) | None => true end = true ->
+  fst (load_new true true isrepo a tree s) = s.
+Proof.
+  intros s a tree isrepo Hwf Hfr Hb. unfold load_new. destruct (c_base a) as [r|].
+  - apply load_git_guarded_restored_iff; assumption.
+  - destruct (c_work a); try reflexivity. destruct (run_events (c_evs2 a) (c_p2 a) s) as [x [e|]]; reflexivity.
+Qed.
+
+Theorem check_guarded_state_restored :
+  forall s a tree breaking isrepo,
+  wf s = true -> fresh (c_p1 a) s = true -> fresh (c_p2 a) s = true ->
+  check_benign_guarded isrepo s a = true ->
+  fst (check true true isrepo a tree breaking s) = s.
+Proof.
+  intros s a tree breaking isrepo Hwf Hf1 Hf2 Hb. unfold check.
+  destruct (against_of a) as [ag|r] eqn:Eag; [|reflexivity].
+  destruct (ro_call (c_f_root a) isrepo); try reflexivity.
+  destruct (c_ext_fails a); [reflexivity|].
+  unfold check_benign_guarded in Hb. rewrite (against_effective a ag Eag) in Hb. apply andb_true_iff in Hb. destruct Hb as [Hb1 Hb2].
+  assert (H1 : fst (load_git true true isrepo (c_F1 a) (c_p1 a) ag tree (c_evs1 a) s) = s)
+    by (apply load_git_guarded_restored_iff; assumption).
+  destruct (load_git true true isrepo (c_F1 a) (c_p1 a) ag tree (c_evs1 a) s) as [s1 r1]. simpl in H1. subst s1.
+  destruct r1 as [vo|e]; [|reflexivity].
+  pose proof (load_new_guarded_restored s a tree isrepo Hwf Hf2 Hb2) as H2.
+  destruct (load_new true true isrepo a tree s) as [s2 r2]. simpl in H2. subst s2.
   destruct r2; reflexivity.
 Qed.
 
 (* exit code: what check() returns once both sides have been loaded *)
 Theorem check_exit_code :
-  forall force isrepo a tree breaking s ag s1 vo s2 vn,
+  forall guard force isrepo a tree breaking s ag s1 vo s2 vn,
   against_of a = inl ag -> ro_call (c_f_root a) isrepo = Rc0 -> c_ext_fails a = false ->
-  load_git force isrepo (c_F1 a) (c_p1 a) ag tree (c_evs1 a) s = (s1, Returned vo) ->
-  load_new force isrepo a tree s1 = (s2, Returned vn) ->
-  check force isrepo a tree breaking s = (s2, Returned (if breaking_pair breaking vo vn then 1 else 0)).
+  load_git guard force isrepo (c_F1 a) (c_p1 a) ag tree (c_evs1 a) s = (s1, Returned vo) ->
+  load_new guard force isrepo a tree s1 = (s2, Returned vn) ->
+  check guard force isrepo a tree breaking s = (s2, Returned (if breaking_pair breaking vo vn then 1 else 0)).
 Proof.
-  intros force isrepo a tree breaking s ag s1 vo s2 vn Hag Hroot Hext H1 H2.
+  intros guard force isrepo a tree breaking s ag s1 vo s2 vn Hag Hroot Hext H1 H2.
   unfold check. rewrite Hag, Hroot, Hext, H1, H2. reflexivity.
 Qed.
 
 (* exit 0 is only ever returned after both sides were loaded and compared without a breaking change *)
 Theorem check_zero_sound :
-  forall force isrepo a tree breaking s,
-  snd (check force isrepo a tree breaking s) = Returned 0 ->
+  forall guard force isrepo a tree breaking s,
+  snd (check guard force isrepo a tree breaking s) = Returned 0 ->
   exists ag s1 vo s2 vn,
     against_of a = inl ag /\
-    load_git force isrepo (c_F1 a) (c_p1 a) ag tree (c_evs1 a) s = (s1, Returned vo) /\
-    load_new force isrepo a tree s1 = (s2, Returned vn) /\
+    load_git guard force isrepo (c_F1 a) (c_p1 a) ag tree (c_evs1 a) s = (s1, Returned vo) /\
+    load_new guard force isrepo a tree s1 = (s2, Returned vn) /\
     breaking_pair breaking vo vn = false.
 Proof.
-  intros force isrepo a tree breaking s. unfold check.
+  intros guard force isrepo a tree breaking s. unfold check.
   destruct (against_of a) as [ag|r] eqn:Eag.
   - destruct (ro_call (c_f_root a) isrepo); simpl; try discriminate.
     destruct (c_ext_fails a); simpl; [discriminate|].
-    destruct (load_git force isrepo (c_F1 a) (c_p1 a) ag tree (c_evs1 a) s) as [s1 [vo|e]] eqn:E1; simpl; [|discriminate].
-    destruct (load_new force isrepo a tree s1) as [s2 [vn|e]] eqn:E2; simpl; [|discriminate].
+    destruct (load_git guard force isrepo (c_F1 a) (c_p1 a) ag tree (c_evs1 a) s) as [s1 [vo|e]] eqn:E1; simpl; [|discriminate].
+    destruct (load_new guard force isrepo a tree s1) as [s2 [vn|e]] eqn:E2; simpl; [|discriminate].
     destruct (breaking_pair breaking vo vn) eqn:Eb; [discriminate|]. intros _.
     exists ag, s1, vo, s2, vn. repeat split; assumption.
   - simpl. intros H. subst r. unfold against_of in Eag. destruct (c_against a); [discriminate|].
@@ -590,8 +1037,8 @@ Definition tree_wit : list (commit * content) := [(0, CPackage); (1, CPackage)].
 Lemma without_force_refuted :
   exists s p ref tree evs,
     wf s = true /\ fresh p s = true /\ benign true s ref no_faults = true /\
-    fst (load_git false true no_faults p ref tree evs s) <> s /\
-    fst (load_git true true no_faults p ref tree evs s) = s.
+    fst (load_git false false true no_faults p ref tree evs s) <> s /\
+    fst (load_git false true true no_faults p ref tree evs s) = s.
 Proof.
   exists s_wit, 7, "v1", tree_wit, [EvStep; EvWrite].
   repeat split; try reflexivity. vm_compute. intro H. discriminate H.
@@ -601,10 +1048,10 @@ Qed.
 Lemma add_after_refuted :
   exists s p ref tree evs F,
     wf s = true /\ fresh p s = true /\ f_add F = FailAfter /\
-    fst (load_git true true F p ref tree evs s) <> s /\
-    snd (load_git true true F p ref tree evs s) = Raised "RuntimeError".
+    fst (load_git false true true F p ref tree evs s) <> s /\
+    snd (load_git false true true F p ref tree evs s) = Raised "RuntimeError".
 Proof.
-  exists s_wit, 7, "v1", tree_wit, [], (mkFaults NoFault false FailAfter NoFault NoFault).
+  exists s_wit, 7, "v1", tree_wit, [], (mkFaults NoFault false NoFault FailAfter NoFault NoFault RmOk).
   repeat split; try reflexivity. vm_compute. intro H. discriminate H.
 Qed.
 
@@ -614,27 +1061,91 @@ Definition s_wit_stale : repo :=
 
 Example stale_registration_survives :
   wf s_wit_stale = true /\ fresh 7 s_wit_stale = true /\ no_prunable s_wit_stale = false /\
-  load_git true true no_faults 7 "v1" tree_wit [] s_wit_stale = (s_wit_stale, Returned 0).
+  load_git false true true no_faults 7 "v1" tree_wit [] s_wit_stale = (s_wit_stale, Returned 0).
 Proof. repeat split; reflexivity. Qed.
 
 (* why the cleanup faults are excluded by hypothesis: when `branch -D` itself fails nothing can remove the branch *)
 Lemma cleanup_fault_refuted :
   exists s p ref tree evs F,
     wf s = true /\ fresh p s = true /\ f_branchD F = FailBefore /\
-    fst (load_git true true F p ref tree evs s) <> s.
+    fst (load_git false true true F p ref tree evs s) <> s.
 Proof.
-  exists s_wit, 7, "v1", tree_wit, [], (mkFaults NoFault false NoFault NoFault FailBefore).
+  exists s_wit, 7, "v1", tree_wit, [], (mkFaults NoFault false NoFault NoFault NoFault FailBefore RmOk).
   repeat split; try reflexivity. vm_compute. intro H. discriminate H.
 Qed.
 
 (* the hypotheses of the main theorem are satisfiable together with a non-trivial run *)
 Example restored_nonvacuous :
   wf s_wit = true /\ fresh 7 s_wit = true /\
-  benign true s_wit "v1" (mkFaults NoFault false NoFault FailAfter (RaiseAfter "KeyboardInterrupt")) = true /\
-  load_git true true (mkFaults NoFault false NoFault FailAfter (RaiseAfter "KeyboardInterrupt")) 7 "v1" tree_wit
+  benign true s_wit "v1" (mkFaults NoFault false NoFault NoFault FailAfter (RaiseAfter "KeyboardInterrupt") (RmRaiseAfter "KeyboardInterrupt")) = true /\
+  load_git false true true (mkFaults NoFault false NoFault NoFault FailAfter (RaiseAfter "KeyboardInterrupt") (RmRaiseAfter "KeyboardInterrupt")) 7 "v1" tree_wit
            [EvWrite; EvRaise "Injected"] s_wit = (s_wit, Raised "KeyboardInterrupt").
 Proof. repeat split; reflexivity. Qed.
 
+
+(* ------------------------------------------------------------------ more witnesses (extended alphabet, repaired variant) *)
+
+(* F2 in its torn form: interrupted after `git branch`, before the registration: the branch alone stays *)
+Lemma add_torn_refuted :
+  exists s p ref tree evs F,
+    wf s = true /\ fresh p s = true /\ f_add F = Torn (Some "KeyboardInterrupt") /\
+    fst (load_git false true true F p ref tree evs s) = leak_branch s (tmp_branch ref) 0 /\
+    fst (load_git false true true F p ref tree evs s) <> s.
+Proof.
+  exists s_wit, 7, "v1", tree_wit, [], (mkFaults NoFault false NoFault (Torn (Some "KeyboardInterrupt")) NoFault NoFault RmOk).
+  repeat split; try reflexivity. vm_compute. intro H. discriminate H.
+Qed.
+
+(* the very placements that defeat the code as it is are restored by the repaired variant *)
+Example repaired_restores_f2 :
+  let Fa := mkFaults NoFault false NoFault FailAfter NoFault NoFault RmOk in
+  let Ft := mkFaults NoFault false NoFault (Torn (Some "KeyboardInterrupt")) NoFault NoFault RmOk in
+  let Fr := mkFaults NoFault false NoFault (RaiseAfter "KeyboardInterrupt") NoFault NoFault RmOk in
+  load_git true true true Fa 7 "v1" tree_wit [] s_wit = (s_wit, Raised "RuntimeError") /\
+  load_git true true true Ft 7 "v1" tree_wit [] s_wit = (s_wit, Raised "KeyboardInterrupt") /\
+  load_git true true true Fr 7 "v1" tree_wit [] s_wit = (s_wit, Raised "KeyboardInterrupt") /\
+  fst (load_git false true true Fa 7 "v1" tree_wit [] s_wit) <> s_wit /\
+  benign_guarded true s_wit "v1" Fa = true /\ benign true s_wit "v1" Fa = false.
+Proof. repeat split; try reflexivity. vm_compute. intro H. discriminate H. Qed.
+
+(* the user's own branch griffe-v1 is never deleted by the repaired variant: the existence test ends the call *)
+Definition s_wit_owned : repo := mkRepo (Some "main") 1 0 [("main", 1); ("griffe-v1", 0)] [("v1", 0)] [] [] [].
+Example repaired_keeps_user_branch :
+  wf s_wit_owned = true /\ fresh 7 s_wit_owned = true /\
+  load_git true true true no_faults 7 "v1" tree_wit [] s_wit_owned = (s_wit_owned, Raised "RuntimeError") /\
+  load_git false true true no_faults 7 "v1" tree_wit [] s_wit_owned = (s_wit_owned, Raised "RuntimeError").
+Proof. repeat split; reflexivity. Qed.
+
+(* a name collision: mkdtemp returns a directory name under which a stale registration of an earlier, interrupted run
+   still exists (fresh does NOT hold): `worktree add` creates its branch and only then refuses the path *)
+Definition s_wit_collision : repo :=
+  mkRepo (Some "main") 1 0 [("main", 1); ("old", 0)] [("v1", 0)] [mkReg 7 (Some "old") false] [] [].
+Example occupied_path_leaks_branch :
+  wf s_wit_collision = true /\ fresh 7 s_wit_collision = false /\
+  load_git false true true no_faults 7 "v1" tree_wit [] s_wit_collision
+  = (leak_branch s_wit_collision "griffe-v1" 0, Raised "RuntimeError").
+Proof. repeat split; reflexivity. Qed.
+
+(* the removal of the TemporaryDirectory fails in the middle: the repository is clean, the directory stays *)
+Example rmtree_torn_leaves_tmp :
+  let F := mkFaults NoFault false NoFault NoFault NoFault NoFault (RmTorn "OSError") in
+  benign true s_wit "v1" F = false /\
+  load_git false true true F 7 "v1" tree_wit [] s_wit
+  = (mkRepo (Some "main") 1 0 [("main", 1)] [("v1", 0)] [] [] [7], Raised "OSError").
+Proof. repeat split; reflexivity. Qed.
+
+(* a torn `worktree remove`: the checkout is gone, its registration and the branch stay *)
+Example remove_torn_leaves_registration :
+  let F := mkFaults NoFault false NoFault NoFault (Torn None) NoFault RmOk in
+  benign true s_wit "v1" F = false /\
+  load_git false true true F 7 "v1" tree_wit [] s_wit = (leak_reg s_wit 7 "griffe-v1" 0, Returned 0).
+Proof. repeat split; reflexivity. Qed.
+
+Example guarded_nonvacuous :
+  let F := mkFaults NoFault false NoFault (Torn None) FailBefore (RaiseAfter "KeyboardInterrupt") (RmRaiseAfter "OSError") in
+  wf s_wit = true /\ fresh 7 s_wit = true /\ benign_guarded true s_wit "v1" F = true /\
+  load_git true true true F 7 "v1" tree_wit [EvWrite] s_wit = (s_wit, Raised "OSError").
+Proof. repeat split; reflexivity. Qed.
 (* ------------------------------------------------------------------ _normalize *)
 
 Fixpoint all_chars (P : ascii -> Prop) (s : string) : Prop :=
@@ -736,14 +1247,14 @@ Proof.
   - intro K. apply H. right. exact K.
 Qed.
 
-(* every file the loader visited in the checkout is in the collection, with the text it had at that reference;
-   obj_lines / obj_source take no file-system argument: what happens to the checkout afterwards cannot matter *)
+(* every file the loader loaded from the checkout (static or dynamic analysis) is in the collection, with the text it
+   had at that reference -- on EVERY file system, in particular the one in which the checkout no longer exists *)
 Theorem objects_self_contained :
-  forall checkout files lc rel ls,
+  forall fs checkout files lc rel ls,
   NoDup (map fst files) -> In (rel, ls) files ->
-  obj_lines (visit_files checkout files lc) (checkout ++ rel) = ls.
+  obj_lines fs (visit_files checkout files lc) (checkout ++ rel) = ls.
 Proof.
-  intros checkout. induction files as [|[rel0 ls0] files IH]; intros lc rel ls Hnd Hin; [contradiction|].
+  intros fs checkout. induction files as [|[rel0 ls0] files IH]; intros lc rel ls Hnd Hin; [contradiction|].
   simpl in Hnd. inversion Hnd as [|? ? Hnot Hnd']; subst. simpl.
   destruct Hin as [E|Hin].
   - inversion E; subst. unfold obj_lines. rewrite visit_files_other.
@@ -753,8 +1264,53 @@ Proof.
   - apply IH; assumption.
 Qed.
 
-(* `git worktree prune` never does anything for Griffe's own worktree in the states the finally block can be in:
-   its only possible effect is on registrations that were already prunable before the call (finding F3) *)
+(* the loader only ever stores: a collection without promises stays without promises *)
+Lemma visit_files_all_stored : forall checkout files lc, all_stored lc = true -> all_stored (visit_files checkout files lc) = true.
+Proof.
+  induction files as [|[rel ls] files IH]; intros lc H; simpl; [exact H|]. apply IH. unfold lc_set. simpl. exact H.
+Qed.
+
+Lemma lc_get_stored : forall lc k e, all_stored lc = true -> lc_get lc k = Some e -> exists l, e = Stored l.
+Proof.
+  induction lc as [|[k' v] lc IH]; simpl; intros k e H G; [discriminate|].
+  apply andb_true_iff in H. destruct H as [Hv Hl]. destruct (parts_eqb k' k).
+  - inversion G; subst. destruct e as [l|]; [exists l; reflexivity|discriminate].
+  - eapply IH; eassumption.
+Qed.
+
+(* "the objects returned remain fully usable after the temporary checkout has been removed": what any object gives as
+   its lines / source is the same on every two file systems, for every path and every span *)
+Theorem lines_independent_of_filesystem :
+  forall fs1 fs2 checkout files lc filepath lineno endlineno,
+  all_stored lc = true ->
+  obj_lines fs1 (visit_files checkout files lc) filepath = obj_lines fs2 (visit_files checkout files lc) filepath /\
+  obj_source fs1 (visit_files checkout files lc) filepath lineno endlineno
+  = obj_source fs2 (visit_files checkout files lc) filepath lineno endlineno.
+Proof.
+  intros fs1 fs2 checkout files lc filepath lineno endlineno H.
+  pose proof (visit_files_all_stored checkout files lc H) as A.
+  assert (E : obj_lines fs1 (visit_files checkout files lc) filepath = obj_lines fs2 (visit_files checkout files lc) filepath).
+  { unfold obj_lines. destruct (lc_get (visit_files checkout files lc) filepath) as [e|] eqn:G; [|reflexivity].
+    destruct (lc_get_stored _ _ _ A G) as [l ->]. reflexivity. }
+  split; [exact E|]. unfold obj_source. rewrite E. reflexivity.
+Qed.
+
+(* the statement is not vacuous: with a promise in the collection (a lazy read, which the code as it is never makes)
+   the lines depend on whether the checkout still exists *)
+Example deferred_depends_on_filesystem :
+  let k := ["tmp"; "griffe-worktree-x"; "v1"; "pkg"; "a.py"] in
+  obj_lines [(k, ["x = 1"])] [(k, Deferred)] k = ["x = 1"] /\ obj_lines [] [(k, Deferred)] k = [] /\
+  all_stored [(k, Deferred)] = false.
+Proof. repeat split; reflexivity. Qed.
+
+Example objects_self_contained_nonvacuous :
+  obj_source [] (visit_files ["tmp"; "co"] [(["pkg"; "a.py"], ["import os"; "def f():"; "    return 1"; "x = 2"])] []) ["tmp"; "co"; "pkg"; "a.py"] 2 3
+  = ["def f():"; "    return 1"].
+Proof. reflexivity. Qed.
+
+(* `git worktree prune` never does anything for Griffe's own worktree in the states the finally block can be in
+   (a torn `worktree remove` aside): its only possible effect is on registrations that were already prunable before the
+   call (finding F3) *)
 Theorem prune_is_noop_in_cleanup :
-  forall s p b c a, fresh p s = true -> no_prunable s = true -> wt_prune (conc s p b c a) = conc s p b c a.
-Proof. intros s p b c a Hfr Hnp. apply prune_sim; assumption. Qed.
+  forall s p b c a, fresh p s = true -> no_prunable s = true -> a <> AStale -> wt_prune (conc s p b c a) = conc s p b c a.
+Proof. intros s p b c a Hfr Hnp Hne. apply prune_sim; assumption. Qed.
